@@ -129,46 +129,30 @@ func bytesStr(b []int) string {
 	return fmt.Sprintf("%q", string(bs))
 }
 
-// predictedLog evaluates the observation log under a model: for each sequence
-// number exactly one entry has a true guard.
+// predictedLog runs the harness in the engine with every nondeterministic
+// input fixed to the model (no forking) and returns its observation log: the
+// engine's prediction of what the native run prints.
 func (e *Engine) predictedLog(model []uint64) []string {
-	bySeq := map[int][]int{}
-	maxSeq := -1
-	for i, o := range e.obs {
-		bySeq[o.Seq] = append(bySeq[o.Seq], i)
-		if o.Seq > maxSeq {
-			maxSeq = o.Seq
+	vec := e.vectorOf(model)
+	return concreteLog(e.P, e.spec, vec)
+}
+
+func concreteLog(p *Program, spec JobSpec, vec Vector) (log []string) {
+	e := NewEngine(p, Config{Unwind: 100000})
+	e.conc = &vec
+	defer func() {
+		if r := recover(); r != nil {
+			log = append(e.clog, fmt.Sprintf("engine-error:%v", r))
 		}
+	}()
+	e.InitGlobals()
+	fn := p.FindFunc(spec.Harness)
+	args := make([]Value, len(spec.Args))
+	for i, a := range spec.Args {
+		args[i] = Int(uint64(int64(a)))
 	}
-	var out []string
-	e.ts.EvalBegin()
-	for s := 0; s <= maxSeq; s++ {
-		found := false
-		for _, i := range bySeq[s] {
-			o := e.obs[i]
-			if !e.snapHolds(o.Snap, model) {
-				continue
-			}
-			var val uint64
-			switch v := o.Val.(type) {
-			case Int:
-				val = uint64(v)
-			case *Term:
-				val = e.ts.EvalNext(v, model)
-			}
-			sv := int64(val)
-			if o.W > 0 && o.W < 64 {
-				sv = sext(val, o.W)
-			}
-			out = append(out, fmt.Sprintf("%s=%d", o.Name, sv))
-			found = true
-			break
-		}
-		if !found {
-			break
-		}
-	}
-	return out
+	e.call(p.Info(fn), e.base.Fork(), args)
+	return e.clog
 }
 
 func RunJob(p *Program, spec JobSpec, kfAccept map[string]bool) (res *JobResult) {
@@ -179,6 +163,7 @@ func RunJob(p *Program, spec JobSpec, kfAccept map[string]bool) (res *JobResult)
 		unwind = 400
 	}
 	e := NewEngine(p, Config{Unwind: unwind, CheckComplex: spec.CheckComplex, FeasTimeoutMs: 2000, FinalTimeoutMs: 120000})
+	e.spec = spec
 	if kfAccept != nil {
 		e.kfAccept = kfAccept
 	}
@@ -278,7 +263,7 @@ func RunJob(p *Program, spec JobSpec, kfAccept map[string]bool) (res *JobResult)
 	for _, key := range order {
 		g := groups[key]
 		res.Obligations++
-		r, model := e.sol.Check(g.viol, true)
+		r, model := e.sol.CheckOneShot(g.viol, true, e.cfg.FinalTimeoutMs)
 		switch r {
 		case Unsat:
 			res.Discharged++
@@ -296,7 +281,7 @@ func RunJob(p *Program, spec JobSpec, kfAccept map[string]bool) (res *JobResult)
 		}
 		if !g.known.IsConst() || g.known.C != 0 {
 			res.Obligations++
-			r, model := e.sol.Check(g.known, true)
+			r, model := e.sol.CheckOneShot(g.known, true, e.cfg.FinalTimeoutMs)
 			switch r {
 			case Sat:
 				res.Discharged++
